@@ -289,6 +289,7 @@ package fosite
 //@   ensures [C11.http-only-local] result <==> (strings.HasSuffix(hostname_of(redirectURI.Host), ".localhost") || loopback(hostname_of(redirectURI.Host)) || hostname_of(redirectURI.Host) == "localhost")
 
 //@ func IsRedirectURISecure
+//@   pure
 //@   requires redirectURI != nil
 //@   ensures [C11.http-only-local] result <==> !(redirectURI.Scheme == "http" && !(strings.HasSuffix(hostname_of(redirectURI.Host), ".localhost") || loopback(hostname_of(redirectURI.Host)) || hostname_of(redirectURI.Host) == "localhost"))
 
@@ -379,3 +380,58 @@ package fosite
 //@   ensures forall x string :: insl(recv.GetGrantedAudience(), x) <==> (insl(old(recv.GetGrantedAudience()), x) || insl(requester.GetGrantedAudience(), x))
 //@   ensures forall x string :: insl(recv.GetRequestedScopes(), x) <==> (insl(old(recv.GetRequestedScopes()), x) || insl(requester.GetRequestedScopes(), x))
 //@   ensures forall x string :: insl(recv.GetRequestedAudience(), x) <==> (insl(old(recv.GetRequestedAudience()), x) || insl(requester.GetRequestedAudience(), x))
+
+// ---------------------------------------------------------------- C17 / C07 / C20: pushed authorization requests
+//@ ghost par_exists : map[string]bool
+//@ ghost par_req    : map[string]AuthorizeRequester
+//@ ghost par_client : map[string]string
+//@ ghost par_exp    : map[string]int          // expiry instant of the pushed context (0 = none recorded)
+//@ spec func par_unchanged() bool = par_exists == old(par_exists) && par_req == old(par_req) && par_client == old(par_client) && par_exp == old(par_exp)
+
+// What reaches the storage layer inside a stored request form must not be a cleartext credential.
+//@ spec func form_has_no_secret(v url.Values) bool = formget(v, "client_secret") == "" && formget(v, "client_assertion") == "" && formget(v, "password") == "" && formget(v, "code_verifier") == ""
+
+//@ interface PARStorage.CreatePARSession
+//@   requires [C20.stored-form-whitelisted] formget(request.GetRequestForm(), "client_secret") == "" && formget(request.GetRequestForm(), "client_assertion") == ""
+//@   modifies par_exists, par_req, par_client, par_exp, stored, faults
+//@   ensures err == nil ==> par_exists == upd(old(par_exists), requestURI, true) && par_req == upd(old(par_req), requestURI, request) && par_client == upd(old(par_client), requestURI, request.GetClient().GetID()) && par_exp == upd(old(par_exp), requestURI, request.GetSession() == nil ? 0 : request.GetSession().GetExpiresAt(PushedAuthorizeRequestContext)) && stored == upd(old(stored), request, true) && faults == old(faults)
+//@   ensures err != nil ==> par_unchanged() && stored == old(stored) && faults == old(faults) + 1
+
+//@ interface PARStorage.GetPARSession
+//@   modifies faults
+//@   ensures err == nil ==> par_exists[requestURI] && result != nil && result == par_req[requestURI] && result.GetClient() != nil && result.GetClient().GetID() == par_client[requestURI] && (stored[result] || fresh(result)) && faults == old(faults) && (result.GetSession() == nil ? par_exp[requestURI] == 0 : result.GetSession().GetExpiresAt(PushedAuthorizeRequestContext) == par_exp[requestURI])
+//@   ensures err != nil && eis(err, ErrNotFound) ==> !par_exists[requestURI] && faults == old(faults)
+//@   ensures err != nil && !eis(err, ErrNotFound) ==> faults == old(faults) + 1
+
+//@ interface PARStorage.DeletePARSession
+//@   modifies par_exists, faults
+//@   ensures err == nil ==> par_exists == upd(old(par_exists), requestURI, false) && faults == old(faults)
+//@   ensures err != nil ==> par_exists == old(par_exists) && faults == old(faults) + 1
+
+// TRUSTED for now (range over a map is not yet verifiable): Merge on the reference implementation.
+//@ func (*Request).Merge
+//@   trusted
+//@   modifies a.ID, a.RequestedAt, a.Client, a.Session, a.RequestedScope, a.GrantedScope, a.RequestedAudience, a.GrantedAudience
+//@   ensures a.ID == request.GetID() && a.RequestedAt == request.GetRequestedAt() && a.Client == request.GetClient() && a.Session == request.GetSession()
+//@   ensures forall x string :: insl(a.GrantedScope, x) <==> (insl(old(a.GrantedScope), x) || insl(request.GetGrantedScopes(), x))
+//@   ensures forall x string :: insl(a.RequestedScope, x) <==> (insl(old(a.RequestedScope), x) || insl(request.GetRequestedScopes(), x))
+//@   ensures forall x string :: insl(a.GrantedAudience, x) <==> (insl(old(a.GrantedAudience), x) || insl(request.GetGrantedAudience(), x))
+//@   ensures forall x string :: insl(a.RequestedAudience, x) <==> (insl(old(a.RequestedAudience), x) || insl(request.GetRequestedAudience(), x))
+
+//@ func (*Fosite).authorizeRequestFromPAR
+//@   let uri = old(formget(r.Form, "request_uri"))
+//@   requires f != nil && r != nil && request != nil
+//@   modifies par_exists, faults
+//@   ensures [C17.one-time] result0 ==> err == nil && old(par_exists[uri]) && !par_exists[uri]
+//@   ensures [C17.client-bound] result0 ==> old(par_client[uri]) == old(formget(r.Form, "client_id"))
+//@   ensures [C17.unexpired] result0 && old(par_exp[uri]) != 0 ==> $nowcalls > old($nowcalls) && old(par_exp[uri]) >= $now
+//@   ensures [C17.authoritative] result0 ==> request.RedirectURI == old(par_req[uri]).GetRedirectURI() && request.ResponseTypes == old(par_req[uri]).GetResponseTypes() && request.State == old(par_req[uri]).GetState() && request.ResponseMode == old(par_req[uri]).GetResponseMode() && request.Client == old(par_req[uri]).GetClient() && request.Session == old(par_req[uri]).GetSession()
+//@   ensures [C17.authoritative] result0 ==> (forall x string :: insl(old(par_req[uri]).GetRequestedScopes(), x) ==> insl(request.RequestedScope, x)) && (forall x string :: insl(old(par_req[uri]).GetRequestedAudience(), x) ==> insl(request.RequestedAudience, x))
+//@   ensures [C17.not-par-changes-nothing] !result0 && err == nil ==> par_exists == old(par_exists) && faults == old(faults)
+//@   ensures [C17.foreign-prefix-ignored] !strings.HasPrefix(uri, cast(f.Config, PushedAuthorizeRequestConfigProvider).GetPushedAuthorizeRequestURIPrefix(ctx)) ==> !result0 && par_exists == old(par_exists)
+//@   ensures [C17.fault-refuses] faults != old(faults) ==> !result0 && err != nil
+//@ pureiface fosite.PushedAuthorizeResponder.Get*
+//@ interface PushedAuthorizeResponder.SetRequestURI
+//@   sets recv.GetRequestURI() = requestURI
+//@ interface PushedAuthorizeResponder.SetExpiresIn
+//@   sets recv.GetExpiresIn() = seconds
